@@ -30,14 +30,14 @@ def _strategy():
                         st.lists(st.sampled_from([b'\r\n', b'0', b'\r', b'\n', b'a', b'5', b';', b'0\r\n\r\n']), max_size=30).map(b''.join))
     return st.fixed_dictionaries({
         'payload': payload,
-        'sizes': st.lists(st.integers(1, 40), max_size=8),
+        'sizes': st.one_of(st.lists(st.integers(1, 6), min_size=1, max_size=10), st.lists(st.integers(1, 40), max_size=8)),
         'spell': st.lists(st.fixed_dictionaries({'upper': st.booleans(), 'zeros': st.integers(0, 3)}), min_size=1, max_size=4),
         'exts': st.lists(ext, min_size=1, max_size=3),
         'last_ext': st.one_of(st.just(''), st.text(TOK, min_size=1, max_size=5)),
         'last_zeros': st.integers(0, 2),
         'trailers': st.lists(st.sampled_from(['X-A: b', 'Foo: bar', 'E:']), max_size=2),
         'final_crlf': st.booleans(),
-        'buf_extra': st.integers(0, 40),
+        'buf_extra': st.one_of(st.integers(0, 3), st.integers(0, 40)),
         'pattern': st.one_of(st.just([]), st.lists(st.integers(1, 6), min_size=1, max_size=6),
                              st.lists(st.integers(1, 50), min_size=1, max_size=8)),
     })
